@@ -108,7 +108,7 @@ def run(ctx):
             run_driver_checked(ctx, exe_a, [scr, ctx.path(drv + "_asan.ndjson")], what=drv + "(asan)", replay_src=scr, timeout=6000, env={"ASAN_OPTIONS": "detect_leaks=0"})
         if not (os.path.exists(tr) and os.path.getsize(tr)):
             continue
-        tl = [x for x in open(tr).read().split("\n") if x]
+        tl = [x for x in read_text(tr).split("\n") if x]
         div_tot += sum(1 for x in tl if '"diverged":true' in x)
         ctx.sample({"recorded_trace_" + drv: [json.loads(x) for x in tl[:8]]})
 
